@@ -250,7 +250,9 @@ def workdir_path(ctx):
     n = 0
     for ds in delete_sites(ctx):
         b, bb, rv, nb = ds.raw, ds.raw_bb, ds.view, ds.bb
-        if ds.api.endswith("remove_dir_all") and classify_delete_site(ctx, ds) in ("workdir", None):
+        at0 = rv.prov.operand_atoms(ds.path_op) if ds.path_op is not None else set()
+        touches_target = any(c.endswith("Target::output") or c.endswith("Target::input") for c in atom_callres(at0)) or any(a[0] == "field" and a[2] in ("input", "output") and "Target" in a[1] for a in at0)
+        if ds.api.endswith("remove_dir_all") and classify_delete_site(ctx, ds) in ("workdir", None) and not touches_target:
             n += 1
             at = rv.prov.operand_atoms(ds.path_op)
             ctx.check(bool(atom_callres(at) & {x.name for x in wd}), f"{short(r.outer_fn(b).name)}/remove", [site(rv, nb)], "a whole directory is removed whose path does not come from the work-dir path function (nor from a declared output)")
@@ -690,7 +692,7 @@ def state_path_pure(ctx):
     other_fields = {(a[1], a[2]) for a in at if a[0] == "field" and not path_ends(a[1], "TargetMetadata") and not a[1].startswith("(tuple") and not path_ends(a[1], "TargetId")}
     statics = {a[1] for a in at if a[0] == "static"}
     ext = {c for c in atom_callres(at) if re.search(r"std::env::|process::id|SystemTime|Instant|rand|current_dir|temp_dir", c)}
-    ctx.check("project_dir" in fields and not ext and not statics and b.argc == 1, f"{short(b.name)}/inputs", [b.loc()],
+    ctx.check("project_dir" in fields and not ext and not statics and b.argc == 1, f"{short(b.name)}/inputs", [b.loc()], props=["C18", "C03"], found=
               f"the state path depends on something else than the target's project directory and id (fields {sorted(fields)}, statics {sorted(statics)}, external {sorted(ext)})")
     # the id goes in through Display of the metadata / id: a Display argument built from the parameter
     def names_target(o):
@@ -701,7 +703,7 @@ def state_path_pure(ctx):
                any(names_target(o) for o in origins(b, operand_local(t["args"][0]))) for bb, t in b.calls())
     ctx.check(disp, f"{short(b.name)}/id", [b.loc()], "the state file name does not contain the target id")
     wd = {x.name for x in r.work_dir_path_fns()}
-    ctx.check(bool(atom_callres(at) & wd), f"{short(b.name)}/in-workdir", [b.loc()], "the state file is not placed in the work directory of the declaring project")
+    ctx.check(bool(atom_callres(at) & wd), f"{short(b.name)}/in-workdir", [b.loc()], "the state file is not placed in the work directory of the declaring project", props=["C18", "C03"])
     # Display of TargetMetadata writes the id
     for x in f.user_bodies():
         if re.match(r"^<[\w:]*TargetMetadata as std::fmt::Display>::fmt$", x.name):
